@@ -371,4 +371,217 @@ example :
 example : Inv (Pools.new [4, 16]) ∧ ([4, 16] : List Nat).Pairwise (· < ·) := ⟨inv_new _, by decide⟩
 
 end pool
+
+/-! ## 3. the pooled interpreter state and its recycled result object -/
+section runner
+open RegexVerif.RunnerReuse RegexVerif.Lemmas.RunnerReuse
+
+/-- **`scanInit` resets.**  Take any runner out of the pool (`PoolInv`: what `putRunner` establishes),
+    optionally select the bool-only program, and run the initialisation part of `scan`: the state a
+    scan can depend on (`observe`: selected program, text fields, the *used* parts of the three stacks,
+    track count, the result object's counts / cells below `2*count` / balancing flag / text fields,
+    timeout fields) is equal to the one obtained from a brand-new runner.  Positions are at the ends,
+    all `matchcount` are 0, `balancing` is false, `textstart`/`text` are the call's. -/
+theorem scanInit_resets (re : Re) (a : ScanArgs) (quick : Bool) (r : Runner) (h : PoolInv re r) :
+    let sel := fun r => if quick then selectQuick re r else r
+    observe (scanInit re a (sel r)) = observe (scanInit re a (sel Runner.fresh)) ∧
+    (observe (scanInit re a (sel r))).trackUsed = [] ∧ (observe (scanInit re a (sel r))).stackUsed = [] ∧
+    (observe (scanInit re a (sel r))).crawlUsed = [] ∧
+    (observe (scanInit re a (sel r))).matchView = some (List.replicate re.capsize (0, []), false, a.textstart, a.textInfo) := by
+  intro sel
+  obtain ⟨hcode, _, _, hrun⟩ := h
+  have hsel : ∀ r', RunInv re r' → RunInv re (sel r') ∧ (sel r').code = (if quick ∧ re.hasQuick then CodeSel.quick else r'.code) := by
+    intro r' hr'
+    cases quick <;> simp only [sel, selectQuick]
+    · exact ⟨hr', by simp⟩
+    · cases re.hasQuick <;> simp [hr']
+      exact hr'
+  obtain ⟨h1, c1⟩ := hsel r hrun
+  obtain ⟨h2, c2⟩ := hsel Runner.fresh (runInv_fresh re)
+  rw [observe_scanInit re a _ h1, observe_scanInit re a _ h2, c1, c2, hcode]
+  exact ⟨rfl, rfl, rfl, rfl, rfl⟩
+
+/-- **`putRunner` restores the pool invariant**: whatever a call did with the runner (bool-only program
+    selected, stacks in any state, captures left behind by an aborted match, `balancing` set), after
+    `putRunner` the main program is selected again and the references to the input are dropped; a new
+    runner satisfies the invariant too; and `scanInit` re-establishes the facts `putRunner` relies on. -/
+theorem put_resets_code (re : Re) (r : Runner) (h : RunInv re r) :
+    PoolInv re (put r) ∧ (put r).code = .main ∧ (put r).runtext = none ∧ PoolInv re Runner.fresh ∧
+    ∀ a, RunInv re (scanInit re a r) := by
+  refine ⟨⟨rfl, rfl, ?_, ?_, ?_⟩, rfl, rfl, poolInv_fresh re, ?_⟩
+  · intro m hm
+    simp only [put, Option.map_eq_some_iff] at hm
+    obtain ⟨m0, _, rfl⟩ := hm; rfl
+  · intro hal; exact h.1 hal
+  · intro m hm
+    simp only [put, Option.map_eq_some_iff] at hm
+    obtain ⟨m0, hm0, rfl⟩ := hm
+    exact h.2 m0 hm0
+  · intro a
+    have hbuilder : ∀ m, (match r.runmatch with
+        | none => Builder.new re.capsize a.textInfo a.textstart
+        | some m => m.reset a.textInfo a.textstart) = m → m.slots.length = re.capsize := by
+      intro m hm
+      cases hr : r.runmatch with
+      | none => rw [hr] at hm; subst hm; simp [Builder.new]
+      | some m0 => rw [hr] at hm; subst hm; simp [Builder.reset, h.2 m0 hr]
+    constructor
+    · intro _
+      cases hal : r.allocated <;> cases hto : a.noTimeout <;> simp [scanInit, initMatch, hal, hto]
+      all_goals exact h.1 hal
+    · intro m hm
+      apply hbuilder m
+      cases hal : r.allocated <;> cases hto : a.noTimeout <;>
+        simp [scanInit, initMatch, hal, hto] at hm <;> exact hm
+
+/-- **A call does not see the runner's history.**  Model a call as: take a runner from the pool, select
+    the program, `scanInit`, then *any* interpreter `run` that is a function of the observable state.
+    Its result is the same for every pooled runner as for a new one. -/
+theorem call_history_independent {ρ : Type} (re : Re) (a : ScanArgs) (quick : Bool) (run : Obs → ρ)
+    (r : Runner) (h : PoolInv re r) :
+    run (observe (scanInit re a (if quick then selectQuick re r else r))) =
+    run (observe (scanInit re a (if quick then selectQuick re Runner.fresh else Runner.fresh))) := by
+  have := (scanInit_resets re a quick r h).1
+  simp only at this
+  rw [this]
+
+/-- **The capacity of the recycled backtracking stack is not observable.**  `ensureStorage` (the only
+    place the capacity matters) fails with `ErrBacktrackingStackLimit` exactly when
+    `depth + 4*trackcount > limit` (`limit ≥ 0`), where `depth` is the number of used cells -- whatever
+    the current capacity, i.e. however far earlier calls grew the stack -- and on success it keeps the
+    depth.  Two runners with the same used depth therefore agree on error/no error. -/
+theorem ensureStorage_capacity_independent (limit : Int) (tc len1 pos1 len2 pos2 : Nat)
+    (h1 : TrackInv limit len1 pos1) (h2 : TrackInv limit len2 pos2) (hd : len1 - pos1 = len2 - pos2) :
+    ((ensureTrack limit tc (tc * 4) len1 pos1).isNone = (ensureTrack limit tc (tc * 4) len2 pos2).isNone) ∧
+    ((ensureTrack limit tc (tc * 4) len1 pos1).isNone = decide (limit ≥ 0 ∧ ((len1 - pos1 : Nat) : Int) + tc * 4 > limit)) ∧
+    (∀ l1 p1 l2 p2, ensureTrack limit tc (tc * 4) len1 pos1 = some (l1, p1) →
+        ensureTrack limit tc (tc * 4) len2 pos2 = some (l2, p2) → l1 - p1 = l2 - p2 ∧ l1 - p1 = len1 - pos1) := by
+  have s1 := ensureTrack_spec limit tc (tc * 4) len1 pos1 h1 (by omega)
+  have s2 := ensureTrack_spec limit tc (tc * 4) len2 pos2 h2 (by omega)
+  rw [← hd] at s2
+  by_cases hc : limit ≥ 0 ∧ ((len1 - pos1 : Nat) : Int) + tc * 4 > limit
+  · simp only [hc, and_self, if_true] at s1 s2
+    simp [s1, s2, hc]
+  · simp only [hc, if_false] at s1 s2
+    obtain ⟨l1, p1, e1, d1, _⟩ := s1
+    obtain ⟨l2, p2, e2, d2, _⟩ := s2
+    refine ⟨by simp [e1, e2], by simp [e1, hc], ?_⟩
+    intro a b c d ha hb
+    rw [e1] at ha; rw [e2] at hb
+    simp only [Option.some.injEq, Prod.mk.injEq] at ha hb
+    obtain ⟨rfl, rfl⟩ := ha
+    obtain ⟨rfl, rfl⟩ := hb
+    omega
+
+/-- **The interpreter scratch fields are dead on entry.**  `executeDefault` starts with `goTo(0)`; its
+    test `newpos <= r.codepos` is true for every left-over `codepos` (so storage is always ensured),
+    and `operator`, `codepos`, `rightToLeft`, `caseInsensitive` are overwritten from the program. -/
+theorem goToZero_ignores_scratch (op0 : Int) (rtl ci : Bool) (r r' : Runner)
+    (h : { r with operator := 0, codepos := 0, rightToLeft := false, caseInsensitive := false } =
+         { r' with operator := 0, codepos := 0, rightToLeft := false, caseInsensitive := false }) :
+    goToZero op0 rtl ci r = goToZero op0 rtl ci r' ∧ (goToZero op0 rtl ci r).1 = true := by
+  unfold goToZero
+  simp only [Nat.zero_le, decide_true, Prod.mk.injEq, true_and, and_true]
+  cases r; cases r'
+  simp only [Runner.mk.injEq] at h ⊢
+  simp_all
+
+/-- **Builder operations respect `≈`.**  Two slots with equal counts and equal cells below
+    `2*matchcount` (a fresh array and a recycled one with left-overs above) stay so under `addMatch`,
+    `removeMatch`, `balanceMatch` and the compaction of `tidy`, and `isMatched` / `matchIndex` /
+    `matchLength` return the same on both (read through `rdLive`; `builder_never_reads_stale` shows
+    the Go reads are of that kind). -/
+theorem builder_ops_respect_equiv (s t : Slot) (h : Slot.Equiv s t) (hs : s.lenOK) (ht : t.lenOK) :
+    (∀ a b, Slot.Equiv (s.addMatch a b) (t.addMatch a b) ∧ (s.addMatch a b).lenOK ∧ (t.addMatch a b).lenOK) ∧
+    (∀ s', s.removeMatch = some s' → ∃ t', t.removeMatch = some t' ∧ Slot.Equiv s' t' ∧ s'.lenOK ∧ t'.lenOK) ∧
+    ((s.balanceMatchWith rdLive = none ∧ t.balanceMatchWith rdLive = none) ∨
+       ∃ s' t', s.balanceMatchWith rdLive = some s' ∧ t.balanceMatchWith rdLive = some t' ∧ Slot.Equiv s' t') ∧
+    ((s.compact = none ∧ t.compact = none) ∨
+       ∃ s' t', s.compact = some s' ∧ t.compact = some t' ∧ Slot.Equiv s' t') ∧
+    s.isMatchedWith rdLive = t.isMatchedWith rdLive ∧
+    s.matchIndexWith rdLive = t.matchIndexWith rdLive ∧
+    s.matchLengthWith rdLive = t.matchLengthWith rdLive := by
+  refine ⟨?_, ?_, equiv_balanceMatch h hs ht, equiv_compact h, isMatched_congr h, matchIndex_congr h, matchLength_congr h⟩
+  · intro a b
+    exact ⟨equiv_addMatch h hs ht a b, (live_addMatch s a b hs).2, (live_addMatch t a b ht).2⟩
+  · intro s' hs'
+    obtain ⟨t', ht', he⟩ := equiv_removeMatch h hs'
+    exact ⟨t', ht', he, (live_removeMatch hs').2.2 hs, (live_removeMatch ht').2.2 ht⟩
+
+/-- **The builder never reads a cell at or above `2*matchcount`.**  For a well-formed slot (`WF`: lengths
+    fit and every balancing reference points below its own position) the Go reads (`rdAny`: whatever
+    the array holds, stale cells included) coincide with reads restricted to the live cells, for
+    `isMatched`, `matchIndex`, `matchLength` and `balanceMatch`; and well-formedness holds after
+    `reset` and is preserved by `Capture` (`addMatch` of non-negative values), `balanceMatch` and
+    `removeMatch`.  Hence stale array contents are never observed. -/
+theorem builder_never_reads_stale (s : Slot) (h : s.WF) :
+    (s.isMatchedWith rdAny = s.isMatchedWith rdLive ∧
+     s.matchIndexWith rdAny = s.matchIndexWith rdLive ∧
+     s.matchLengthWith rdAny = s.matchLengthWith rdLive ∧
+     s.balanceMatchWith rdAny = s.balanceMatchWith rdLive) ∧
+    (∀ start len : Int, 0 ≤ start → 0 ≤ len → (s.addMatch start len).WF) ∧
+    (∀ s', s.balanceMatchWith rdAny = some s' → s'.WF) ∧
+    (∀ s', s.removeMatch = some s' → s'.WF) ∧
+    (∀ t : Slot, t.arr.length ≠ 1 → ({ t with count := 0 } : Slot).WF) := by
+  refine ⟨⟨isMatched_any_eq_live s, matchIndex_any_eq_live s h, matchLength_any_eq_live s h,
+    balanceMatch_any_eq_live s h⟩, fun a b ha hb => wf_capture h a b ha hb, ?_, fun s' hs' => wf_removeMatch h hs', wf_reset⟩
+  intro s' hs'
+  rw [balanceMatch_any_eq_live s h] at hs'
+  exact wf_balanceMatch h hs'
+
+/-- non-vacuity: a recycled slot (count 0, stale cells 5 9 -3 -4 from an earlier balancing match) and a
+    fresh one agree after the same operations: capture (2,3), capture (7,1), balance, and then report
+    the same index/length and compact to the same live cells; the stale cells are never visible. -/
+def exFresh : Slot := { count := 0, arr := [] }
+def exStale : Slot := { count := 0, arr := [5, 9, -3, -4, 8, 8, 8, 8] }
+def exOps (s : Slot) : Option Slot := ((s.addMatch 2 3).addMatch 7 1).balanceMatchWith rdAny
+structure ExView where
+  count : Nat
+  live : List Int
+  index : Option Int
+  length : Option Int
+  matched : Option Bool
+  compacted : Option (Nat × List Int)
+  deriving DecidableEq
+def exView (s : Slot) : ExView :=
+  { count := s.count, live := s.live, index := s.matchIndexWith rdAny, length := s.matchLengthWith rdAny,
+    matched := s.isMatchedWith rdAny, compacted := s.compact.map (fun c => (c.count, c.live)) }
+
+example : (exOps exFresh).map exView = (exOps exStale).map exView := by decide
+example : (exOps exStale).map exView = some ⟨3, [2, 3, 7, 1, -3, -4], some 2, some 3, some true, some (1, [2, 3])⟩ := by decide
+example : Slot.Equiv exFresh exStale ∧ exFresh.WF ∧ exStale.WF :=
+  ⟨⟨rfl, rfl⟩, ⟨⟨by decide, by decide⟩, by intro p v h; simp [exFresh, Slot.live] at h⟩,
+   ⟨⟨by decide, by decide⟩, by intro p v h; simp [exStale, Slot.live] at h⟩⟩
+
+/-- non-vacuity of `scanInit_resets`: a runner that ran a bool-only balancing match on a long input
+    (quick program selected, stacks grown and partly full, a recycled result object with counts,
+    left-over cells and `balancing` set), after `put`, is indistinguishable from a new runner once
+    `scanInit` has run; before `put` it violates the pool invariant. -/
+def exRe : Re := { capsize := 2, trackCount := 3, stackLimit := 1000, debug := false, hasQuick := true }
+def exUsed : Runner :=
+  { Runner.fresh with
+      code := .quick, runtext := some 7, runtextend := 5000, runtextpos := 4711,
+      runtrack := List.replicate 80 9, runtrackpos := 60, runstack := List.replicate 40 4, runstackpos := 10,
+      runcrawl := List.replicate 32 1, runcrawlpos := 30, allocated := true, runtrackcount := 3,
+      runmatch := some { slots := [{ count := 1, arr := [0, 4711] }, { count := 2, arr := [1, 2, -3, -4, 0, 0, 0, 0] }],
+                         balancing := true, textstart := 0, text := some 7 },
+      codepos := 17, operator := 9, deadline := 123 }
+def exArgs : ScanArgs := { rt := 8, rtLen := 3, textInfo := some 8, textstart := 0, timeout := 5, noTimeout := false, newDeadline := 999 }
+
+set_option maxRecDepth 8000 in
+example : observe (scanInit exRe exArgs (put exUsed)) = observe (scanInit exRe exArgs Runner.fresh) ∧
+    (put exUsed).code = .main ∧ exUsed.code ≠ .main ∧
+    observe (scanInit exRe exArgs exUsed) ≠ observe (scanInit exRe exArgs Runner.fresh) := by decide
+
+example : RunInv exRe exUsed := ⟨fun _ => by decide, by intro m h; simp [exUsed, Runner.fresh] at h; subst h; rfl⟩
+
+/-- non-vacuity of `ensureStorage_capacity_independent`: limit 1000, 3 backtracking instructions
+    (reserve 12): a fresh 64-cell stack and a recycled 1000-cell stack, both with 50 cells in use, both
+    succeed keeping depth 50; with 990 cells in use both fail. -/
+example :
+    (ensureTrack 1000 3 12 64 14).map (fun p => p.1 - p.2) = some 50 ∧
+    (ensureTrack 1000 3 12 1000 950).map (fun p => p.1 - p.2) = some 50 ∧
+    ensureTrack 1000 3 12 1000 10 = none ∧ ensureTrack 1000 3 20 990 0 = none := by decide
+
+end runner
 end RegexVerif.Props.C12
